@@ -135,6 +135,11 @@ class Prov:
         self.env_ids = {}
         self.fn_by_path = {}
         self.fn_by_key = {}
+        self.private_adts = set()
+        for c in prog.crates.values():
+            for it in getattr(c, 'ast_items', []):
+                if it.get('kind') in ('struct', 'enum') and it.get('vis', 'pub') == '':
+                    self.private_adts.add(norm_path('::'.join(x for x in (c.name, it.get('module', ''), it['name']) if x)))
         for c in prog.crates.values():
             for fn in c.all_fns():
                 self.fn_by_path.setdefault(norm_path(fn.path), []).append(fn)
@@ -156,6 +161,9 @@ class Prov:
         self.unknowns = []
 
     def is_origin_adt(self, adt):
+        if adt in self.private_adts:
+            # a module-private helper record is never part of the data model: look through it
+            return False
         if adt.startswith(ORIGIN_MODULES) or adt in ORIGIN_ADTS:
             return True
         if not adt.startswith(WORKSPACE_PREFIXES):
